@@ -1055,6 +1055,11 @@ Ltac tie_loop l :=
   [ cbv beta iota zeta delta -[Nat.sub Nat.add]; try reflexivity; loop_leaf IH
   | loop_step_cbn; tie_unfold_gen; cbv beta zeta; loop_split; loop_leaf IH ].
 
+(* the tie of the whole function once the loop lemma has been used: what is left is a case analysis
+   of the list (the `if (c->var == NULL) return false;` in front of the loop, when it is there) *)
+Ltac loop_finish l :=
+  destruct l; cbv beta iota; rewrite ?orb_false_r; reflexivity.
+
 (* ---- tie_wloop: a countdown loop `while ((n > 0) && ..) { .. --n; .. }` translated into a
         structural recursion g_f_loopK on n (see while_loop in tools/handler_translate.py).  Goal
         (stated by hand, generalised over the carried variables):
